@@ -1520,3 +1520,178 @@ def run_ptycho_case(_=None):
     finally:
         shutil.rmtree(tmp, ignore_errors=True)
     return out
+
+
+# ---------------------------------------------------------------------------------------------------------------------
+# C14: the library's OWN caller of the skip machinery: Ptychography.save(skip=..., save_raw_data=...) / load / from_file
+# ---------------------------------------------------------------------------------------------------------------------
+def _pt_value(kind, seed):
+    import torch
+    g = np.random.default_rng(seed)
+    if kind == "int":
+        return int(g.integers(-50, 50))
+    if kind == "float":
+        return float(g.integers(-40, 40)) / 8.0
+    if kind == "str":
+        return "note-%d" % int(g.integers(0, 1000))
+    if kind == "ndarray":
+        return g.integers(-9, 9, size=(2, 3)).astype(np.float64)
+    if kind == "tensor":
+        return torch.tensor(g.integers(-9, 9, size=(3,)).astype(np.float32))
+    if kind == "gen":
+        return np.random.default_rng(seed + 1)
+    if kind == "list":
+        return [int(x) for x in g.integers(-9, 9, size=3)] + ["s"]
+    raise ValueError(kind)
+
+
+def _pt_hang(pt, hang):
+    """attributes put on the toy reconstruction before saving: on its (real, attribute-nested) detector model and a small
+    attribute-nested tree `_notes` (NodeA -> inner NodeB); entries [name, kind, seed]"""
+    from .c01_classes import NodeA, NodeB
+    for nm, kd, sd in hang["det"]:
+        setattr(pt._detector_model, nm, _pt_value(kd, sd))
+    notes = NodeA()
+    for nm, kd, sd in hang["notes"]:
+        setattr(notes, nm, _pt_value(kd, sd))
+    inner = NodeB()
+    for nm, kd, sd in hang["inner"]:
+        setattr(inner, nm, _pt_value(kd, sd))
+    notes.inner = inner
+    pt._notes = notes
+
+
+def _pt_nested(v):
+    import torch
+    from quantem.core.io.serialize import AutoSerialize
+    return isinstance(v, AutoSerialize) and not isinstance(v, torch.nn.Module)
+
+
+def _pt_removed(obj, names, types, pre=(), out=None):
+    """attribute paths the property says are absent after the load: a listed name, or an instance of a listed type on the
+    object being saved, at every level of attribute-nested AutoSerialize objects"""
+    if out is None:
+        out = []
+    for k, v in vars(obj).items():
+        if k in names:
+            out.append((pre + (k,), "name"))
+        elif types and isinstance(v, types):
+            out.append((pre + (k,), "type"))
+        elif _pt_nested(v):
+            _pt_removed(v, names, types, pre + (k,), out)
+    return out
+
+
+def _pt_get(obj, path):
+    for p in path:
+        if not hasattr(obj, p):
+            return False, None
+        obj = getattr(obj, p)
+    return True, obj
+
+
+def _pt_type(name):
+    import importlib
+    mod, _, nm = name.rpartition(".")
+    return getattr(importlib.import_module(mod), nm)
+
+
+class _PtLibraryCall:
+    """the library calls of one case: an exception they raise is a finding of that case, not a harness failure"""
+    exc = None
+
+    def __enter__(self):
+        return self
+
+    def __exit__(self, et, ev, tb):
+        if et is not None and issubclass(et, Exception):
+            self.exc = "%s: %s" % (et.__name__, str(ev)[:200])
+            return True
+        return False
+
+
+def run_ptycho_skip_case(case):
+    """one case of {save_raw_data} x {store} x {caller skip names / types at save time, names at load time}: oracle on the
+    real objects (the property text): every listed name / instance of a listed type is absent after the load at every
+    attribute-nested level, everything else loads exactly as without the caller's lists, the default _dset / dset
+    skipping follows save_raw_data, save-time == load-time name skipping."""
+    import contextlib
+    import warnings
+    warnings.filterwarnings("ignore")
+    out = {"diffs": [], "stats": {}}
+    tmp = tempfile.mkdtemp(prefix="c14ps_")
+
+    def add(key, msg):
+        out["diffs"].append((key, "[save_raw_data=%s store=%s save skip names %s types %s, load skip names %s] %s" % (
+            case["raw"], case["store"], case["save_names"], case["save_types"], case["load_names"], msg)))
+
+    try:
+        from . import toy_ptycho as tp
+        from quantem.core.io.serialize import load
+        from quantem.diffractive_imaging.ptychography import Ptychography
+        raw, store = case["raw"], case["store"]
+        ext = ".zip" if store == "zip" else ""
+        pt = tp.build_toy()
+        _pt_hang(pt, case["hang"])
+        types = tuple(_pt_type(t) for t in case["save_types"])
+        sn, ln = list(case["save_names"]), list(case["load_names"])
+        skip_arg = sn + list(types)
+        if case.get("scalar_form") and len(skip_arg) == 1:
+            skip_arg = skip_arg[0]                      # a single name / type given as such
+        elif case.get("tuple_form"):
+            skip_arg = tuple(skip_arg)
+        removed = _pt_removed(pt, set(sn) | set(ln), types)
+        sink = io.StringIO()
+        lib = _PtLibraryCall()
+        with contextlib.redirect_stdout(sink), contextlib.redirect_stderr(sink), lib:
+            p_ref, p_s = os.path.join(tmp, "ref" + ext), os.path.join(tmp, "s" + ext)
+            pt.save(p_ref, mode="o", store=store, skip=[], save_raw_data=raw, verbose=0)
+            ref = load(p_ref)
+            if sn or types:
+                pt.save(p_s, mode="o", store=store, skip=skip_arg, save_raw_data=raw, verbose=0)
+            else:
+                p_s = p_ref
+            if ln:
+                got = load(p_s, skip=ln[0] if (case.get("scalar_form") and len(ln) == 1) else ln)
+            elif case.get("via") == "from_file":
+                got = Ptychography.from_file(p_s, auto_reload_dataset=False)
+            else:
+                got = load(p_s)
+            by_load = load(p_ref, skip=sorted(set(sn) | set(ln))) if not types else None
+        if lib.exc:
+            add("ptycho:user-skip:raises", "Ptychography.save / load / from_file raised: " + lib.exc)
+            return out
+        # the default skipping follows save_raw_data
+        for a, how in ((ref, "no caller skip"), (got, "with the caller's skip")):
+            has = "_dset" in vars(a)
+            if raw and not has and not any(p == ("_dset",) for p, _ in removed):
+                add("ptycho:raw-data-lost", "%s: save_raw_data=True did not keep _dset" % how)
+            if not raw and has:
+                add("ptycho:skip:still-present", "%s: save_raw_data=False but '_dset' is present after the load" % how)
+        # (1) every listed name / instance of a listed type is absent at every level
+        n_present = 0
+        for path, why in removed:
+            in_ref, _ = _pt_get(ref, path)
+            n_present += in_ref
+            out["stats"]["removed/%s/depth-%d" % (why, len(path) - 1)] = out["stats"].get("removed/%s/depth-%d" % (why, len(path) - 1), 0) + int(in_ref)
+            ok, _ = _pt_get(got, path)
+            if ok:
+                add("ptycho:user-skip:%s-still-present" % why,
+                    "attribute %r (skipped by %s) is present in the loaded object" % (".".join(path), why))
+        out["n_removed_present"] = n_present
+        # (2) all remaining attributes load exactly as without the caller's lists
+        for path, _ in removed:
+            ok, par = _pt_get(ref, path[:-1])
+            if ok and hasattr(par, path[-1]):
+                delattr(par, path[-1])
+        for k, m in graph_diff(ref, got, exact=True, path="ptycho"):
+            add("ptycho:user-skip:remaining:" + k, m)
+        # (3) skipping the same names at load time gives the same object
+        if by_load is not None:
+            for k, m in graph_diff(by_load, got, exact=True, path="ptycho"):
+                add("ptycho:user-skip:save-vs-load:" + k, "load(file saved without the caller's names, skip=names) differs: " + m)
+    except Exception:
+        out["harness_exc"] = traceback.format_exc()[-1500:]
+    finally:
+        shutil.rmtree(tmp, ignore_errors=True)
+    return out
